@@ -28,10 +28,12 @@ func ConvertRequest(ctx *fasthttp.RequestCtx, r *http.Request, forServer bool) e
 	r.Proto = b2s(ctx.Request.Header.Protocol())
 	if r.Proto == "HTTP/2" {
 		r.ProtoMajor = 2
+		r.ProtoMinor = 1
+	} else if major, minor, ok := http.ParseHTTPVersion(r.Proto); ok {
+		r.ProtoMajor, r.ProtoMinor = major, minor
 	} else {
-		r.ProtoMajor = 1
+		r.ProtoMajor, r.ProtoMinor = 1, 1
 	}
-	r.ProtoMinor = 1
 	r.ContentLength = int64(len(body))
 	r.RemoteAddr = ctx.RemoteAddr().String()
 	r.Host = b2s(ctx.Host())
